@@ -141,6 +141,76 @@ def spread_heavy_lines(trace_path, chunk=16):
     vlib.write_ndjson(trace_path, out)
 
 
+def byte_edit(v, tier, b, d):
+    """Byte-edit module (spec/ByteEdit.tla): quick = every case of a 2-entry file (exhaustive, with the design
+    invariants); thorough = additionally a TLC -simulate sample over 6-entry files."""
+    thorough = tier == "thorough"
+    r = vlib.tlc("ByteEditMC", "ByteEdit_q.cfg", deadlock=False, timeout=600, workers=4, heap="2g")
+    vlib.tlc_must_pass(r, "ByteEdit_q.cfg")
+    states, trans = r.distinct, r.generated
+    vlib.tlc_must_fail(vlib.tlc("ByteEditMC", "ByteEdit_neg_lax.cfg", deadlock=False, timeout=600, workers=2, heap="2g"),
+                       "ByteEdit_neg_lax.cfg")
+    prints = parse_prints(r)
+    sampled = 0
+    if thorough:
+        rx = vlib.tlc("ByteEditMC", "ByteEdit_exh.cfg", deadlock=False, timeout=1200, workers=4, heap="4g")
+        vlib.tlc_must_pass(rx, "ByteEdit_exh.cfg")
+        states, trans = states + rx.distinct, trans + rx.generated
+        rs = vlib.tlc("ByteEditMC", "ByteEdit_sim.cfg", workers=1, simulate="num=6000", depth=3, seed_=vlib.seed(),
+                      deadlock=False, timeout=1200, heap="4g")
+        if rs.error or rs.violation:
+            raise vlib.MachineryError("ByteEdit simulation failed: %s %s\n%s" % (rs.kind, rs.what, rs.out[-2000:]))
+        sim = parse_prints(rs)
+        sampled = len(sim)
+        prints += sim
+    cases, expect = {}, {}
+    for pr in prints:
+        c = dict(pr["c"], n=pr["n"])
+        cases[case_key(c)] = c
+        expect[case_key(c)] = pr["exp"]
+    jobs = [cases[k] for k in sorted(cases)]
+    if len(jobs) < 500:
+        raise vlib.MachineryError("only %d byte-edit cases exported by TLC" % len(jobs))
+    epath, etrace = os.path.join(d, "edits.ndjson"), os.path.join(d, "edit_trace.ndjson")
+    vlib.write_ndjson(epath, jobs)
+    vlib.run_driver(b, ["malformed", "-edits", epath, "-out", etrace, "-repo", vlib.REPO], timeout=1800)
+    rows = vlib.read_ndjson(etrace)
+    if len(rows) != len(jobs):
+        raise vlib.MachineryError("driver returned %d edit lines for %d cases" % (len(rows), len(jobs)))
+    tr = vlib.tlc("TraceByteEdit", "TraceByteEdit.cfg", env={"VERIF_TRACE": etrace}, cont=True, timeout=1800, workers=8, heap="4g")
+    vlib.log("TraceByteEdit: %d lines, %.1fs" % (len(rows), tr.wall))
+    if tr.error:
+        raise vlib.MachineryError("TraceByteEdit failed: %s\n%s" % (tr.kind, tr.out[-3000:]))
+    if tr.distinct != len(rows) + 1:
+        raise vlib.MachineryError("TraceByteEdit visited %d states for %d lines" % (tr.distinct, len(rows)))
+    seen = set()
+    for inv, st in tr.all_violations:
+        ln = int(st.get("l", "0"))
+        if ln < 1 or ln > len(rows) or (inv, ln) in seen:
+            continue
+        seen.add((inv, ln))
+        row = rows[ln - 1]
+        ec, obs = row["ec"], row["obs"]
+        if inv == "KnownEdit":
+            raise vlib.MachineryError("driver echoed an edit case the specification does not know: %r" % (ec,))
+        e = lambda x: "%s/%s@%d" % (x["kind"], x["op"], x["k"]) if x["k"] else "-"
+        v.violation("edit format=%s mode=%s e1=%s/%s e2=%s/%s obs=%s inv=%s" % (ec["format"], ec["mode"], ec["e1"]["kind"], ec["e1"]["op"],
+                                                                               ec["e2"]["kind"], ec["e2"]["op"], obs["res"], inv),
+                    "byte edit %s %s of a valid %d-entry %s file (%s): result %s, %d delivered, %d leading deliveries unchanged, invalid at %s; "
+                    "ByteEdit.tla expects %s (%s)" % (e(ec["e1"]), e(ec["e2"]), ec["n"], ec["format"], ec["mode"], obs["res"], obs["delivered"],
+                                                     obs["same"], obs["invalid_at"], expect.get(case_key(ec)), inv),
+                    replay_obj={"invariant": inv, "row": row},
+                    replay_name="edit_%s_%s_%s_%s.json" % (ec["format"], ec["mode"], e(ec["e1"]).replace("/", "-"), e(ec["e2"]).replace("/", "-")))
+    if tr.violation and not seen:
+        raise vlib.MachineryError("TraceByteEdit reports a violation that could not be located\n%s" % tr.out[-3000:])
+    kinds = {}
+    for k in cases:
+        kinds[expect[k]["kind"]] = kinds.get(expect[k]["kind"], 0) + 1
+    return {"states": states, "transitions": trans, "cases": len(jobs), "sampled_by_simulate": sampled, "expectation_classes": kinds,
+            "lines_rejected": len(seen),
+            "sample": [{"case": rows[i]["ec"], "observed": rows[i]["obs"], "spec_expects": expect.get(case_key(rows[i]["ec"]))} for i in (7, len(rows) // 2)]}
+
+
 def run(tier, v):
     thorough = tier == "thorough"
     # 1. design level: exhaustive over the case space; terminal states print the case list
@@ -157,9 +227,9 @@ def run(tier, v):
     if len(cases) < 300:
         raise vlib.MachineryError("only %d cases exported by TLC" % len(cases))
     # negative controls run beside the driver (they only need the spec); joined before the verdict
-    negs = ["Malformed_neg_swallow.cfg", "Malformed_neg_loseprefix.cfg", "Malformed_neg_spin.cfg"]
+    negs = ["Malformed_neg_swallow.cfg", "Malformed_neg_loseprefix.cfg", "Malformed_neg_spin.cfg", "Malformed_neg_noname.cfg"]
     import concurrent.futures
-    pool = concurrent.futures.ThreadPoolExecutor(max_workers=3)
+    pool = concurrent.futures.ThreadPoolExecutor(max_workers=4)
     neg_jobs = [(neg, pool.submit(vlib.tlc, "MalformedMC", neg, deadlock=False, timeout=300, workers=2, heap="2g")) for neg in negs]
     # 2. M2 + M1: render and run every case through the real code
     b = vlib.harness_build()
@@ -174,6 +244,7 @@ def run(tier, v):
     children = int(m.group(2)) if m else 0
     spread_heavy_lines(trace)
     rows, tr, bad = validate(v, trace, timeout=3000 if thorough else 900)
+    be = byte_edit(v, tier, b, d)
     for neg, job in neg_jobs:
         vlib.tlc_must_fail(job.result(), neg)
     pool.shutdown()
@@ -181,7 +252,7 @@ def run(tier, v):
     fuzz_rows = [r_ for r_ in rows if r_["k"] == "fuzz"]
     if len(case_rows) != len(cases):
         raise vlib.MachineryError("driver returned %d case lines for %d cases" % (len(case_rows), len(cases)))
-    nontrivial = len({case_key(r_["c"]) for r_ in case_rows if r_["c"]["cls"] not in ("none", "d_none", "xpath_ok", "map_neg_index", "unknown_tag")})
+    nontrivial = len({case_key(r_["c"]) for r_ in case_rows if r_["c"]["cls"] not in ("none", "d_none", "xpath_ok", "map_neg_index", "unknown_tag", "p_none")})
     obs = {}
     for r_ in case_rows:
         obs[obs_of(r_)] = obs.get(obs_of(r_), 0) + 1
@@ -197,11 +268,12 @@ def run(tier, v):
         samples.append({"fuzz": {k: r_.get(k) for k in ("format", "mode", "seed", "intact", "same", "res")},
                         "op": (r_.get("info") or {}).get("op")})
     cov = {
-        "states": states, "transitions": trans,
-        "traces_validated_against_impl": len(rows),
+        "states": states + be["states"], "transitions": trans + be["transitions"],
+        "traces_validated_against_impl": len(rows) + be["cases"],
+        "byte_edit": be,
         "samples": samples,
         "exhaustive": True,
-        "evaluations": len(rows),
+        "evaluations": len(rows) + be["cases"],
         "distinct_nontrivial": nontrivial,
         "rule": "M2: every case of Malformed!Cases (TLC-enumerated; one per format x mode x prefix length x class x trailing, and "
                 "per description defect x target) rendered and run through the real code; non-trivial = the case carries a "
